@@ -32,7 +32,7 @@ ASSUMPTIONS = ['exact real arithmetic in theorems (for flat hardening the residu
                'jax.grad / jacfwd of the potential is its derivative']
 RULE = ('inputs: seeded material constants (E, nu, Y0, hardening parameters, rate parameters) for sampled combinations of kinematics x hardening law '
         'x rate sensitivity (quick: 6 of 18 per run covering every kinematics and law; thorough: all 18), batches of multi-step displacement-gradient '
-        'histories (monotonic, reversing, non-proportional random walks, repeated states, increments from 1e-3 to 30 yield strains, time steps 1e-3..10); '
+        'histories (monotonic, reversing, non-proportional random walks, repeated states, increments from 1e-3 to 30 yield strains with the accumulated strain norm kept below 0.8, time steps 1e-3..10); '
         'a step is non-trivial when it yields; distinct = distinct (configuration, history, step) triples that yield')
 IMPORTS = ['From OV.gen Require Import Gen_Hardening Gen_J2Flow.', 'From OV.model Require Import M_C09.']
 
@@ -97,6 +97,7 @@ def gen_histories(ctx, cfg, nb, ns):
     for b in range(nb):
         mode = b % 5
         amp = ey * r.choice([1e-3, 0.3, 3.0, 3.0, 30.0]) if mode != 4 else ey * r.choice([0.3, 3.0])
+        amp = min(amp, 0.8 / ns)            # admissible deformations: accumulated strain norm stays below ~0.8 (stretches within e^+-0.8)
         d0 = rand_dir()
         w = onp.array([[0, r.gauss(0, 1), r.gauss(0, 1)], [0, 0, r.gauss(0, 1)], [0, 0, 0]])
         w = (w - w.T) * r.choice([0.0, 0.02, 0.2])
@@ -158,7 +159,11 @@ def make_step(cfg):
         N = J2.compute_flow_direction(Etr)
         s = 2 * mu * jnp.tensordot(TensorMath.dev(Etr), N)
         Yo = hm.compute_flow_stress(eo, eo, dt)
-        Y_ub = hm.compute_flow_stress(eo + jnp.maximum(s - Yo, 0.0) / (3 * mu), eo, dt)
+        width = jnp.maximum(s - Yo, 0.0) / (3 * mu)
+        Y_ub = hm.compute_flow_stress(eo + width, eo, dt)
+        e_near = eo + width * 2.0 ** -45
+        r_near = -s + 3 * mu * (e_near - eo) + hm.compute_flow_stress(e_near, eo, dt)     # residual a hair above eqps_old
+        dY_new = jax.grad(hm.compute_flow_stress)(new[0], eo, dt)
         Enew = strain_fn(H, new)
         s_new = 2 * mu * jnp.tensordot(TensorMath.dev(Enew), N)
         Y_new = hm.compute_flow_stress(new[0], eo, dt)
@@ -173,7 +178,7 @@ def make_step(cfg):
         phi_star = J2.incremental_potential(Etr, new[0], eo, dt, props, hm)
         M = new[1:].reshape((3, 3))
         iso = jnp.where(finite, jnp.linalg.det(M) - 1.0, jnp.trace(M))
-        return dict(new=new, s=s, Yo=Yo, Y_ub=Y_ub, s_new=s_new, Y_new=Y_new, W_old=W_old, W_new=W_new, dP=jnp.max(jnp.abs(P_old - P_new)), Pn=jnp.max(jnp.abs(P_old)),
+        return dict(new=new, s=s, Yo=Yo, Y_ub=Y_ub, r_near=r_near, dY_new=dY_new, s_new=s_new, Y_new=Y_new, W_old=W_old, W_new=W_new, dP=jnp.max(jnp.abs(P_old - P_new)), Pn=jnp.max(jnp.abs(P_old)),
                     new2=new2, es=es, phi=phi, phi_star=phi_star, iso=iso, trN=jnp.trace(N), NN=jnp.tensordot(N, N), mu=mu + 0 * eo)
 
     return jax.jit(jax.vmap(step)), mm
@@ -194,7 +199,7 @@ def run_config(ctx, cfg, nb, ns):
             recs.append(dict(b=b, k=k, H=[[float(x) for x in row] for row in Hs[b, k]], dt=float(dts[b, k]), state=[float(x) for x in state[b]],
                              new=[float(x) for x in o['new'][b]], new2=[float(x) for x in o['new2'][b]],
                              es=[float(x) for x in o['es'][b]], phi=[float(x) for x in o['phi'][b]],
-                             **{q: float(o[q][b]) for q in ('s', 'Yo', 'Y_ub', 's_new', 'Y_new', 'W_old', 'W_new', 'dP', 'Pn', 'phi_star', 'iso', 'trN', 'NN', 'mu')}))
+                             **{q: float(o[q][b]) for q in ('s', 'Yo', 'Y_ub', 'r_near', 'dY_new', 's_new', 'Y_new', 'W_old', 'W_new', 'dP', 'Pn', 'phi_star', 'iso', 'trN', 'NN', 'mu')}))
         state = o['new']
     return recs
 
@@ -214,8 +219,11 @@ def concl(cfg, rec, nsteps_so_far):
         # flat hardening over the bracket (perfect plasticity, saturated Voce): the upper bracket end is the root in exact arithmetic,
         # in binary64 the residual there is rounding noise of either sign -> the sign-change test of the root finder fails
         flat = abs(rec['Y_ub'] - rec['Yo']) <= 1e-12 * (abs(rec['s']) + abs(rec['Yo']))
+        # rate sensitivity: the overstress has an infinite slope at eqps_old, so for a barely yielding step the root lies within
+        # width * 2^-45 of the lower bracket end and 50 iterations cannot resolve it (the C17 iteration-cap finding F7 inside the J2 update)
+        steep = cfg['rate'] and rec['r_near'] > 0
         bad.append(('no_nan', 'state contains NaN after the update (eqps_old=%r, trial stress %r, flow stress %r, flow stress at the bracket end %r)'
-                    % (eo, rec['s'], rec['Yo'], rec['Y_ub']), 'flat_hardening_nan' if flat else 'nan'))
+                    % (eo, rec['s'], rec['Yo'], rec['Y_ub']), 'flat_hardening_nan' if flat else 'rate_sensitivity_cap_nan' if steep else 'nan'))
         return bad
     d = en - eo
     if d < -4 * math.ulp(max(abs(eo), 1e-300)):
@@ -226,6 +234,8 @@ def concl(cfg, rec, nsteps_so_far):
     if abs(rec['trN']) > 1e-12 or abs(rec['NN'] - 1.5) > 1e-12:
         bad.append(('flow_direction', 'tr N = %r, N:N = %r' % (rec['trN'], rec['NN']), None))
     rnd = 1e-11 * (abs(rec['s']) + Y0)
+    if d > 0 and rec['dY_new'] == rec['dY_new'] and not math.isinf(rec['dY_new']):
+        rnd += 8 * abs(rec['dY_new']) * math.ulp(max(en, 1e-300))      # conditioning of the flow stress w.r.t. rounding of the stored eqps
     f_new = rec['s_new'] - rec['Y_new']
     if f_new > tol + rnd:
         bad.append(('yield_consistent', 'after the update trial stress - flow stress = %r > tolerance %r' % (f_new, tol), None))
@@ -406,7 +416,7 @@ def _replay_case(case):
     o = stepf(jnp.array([case['H']]), jnp.array([case['state']]), jnp.array([case['dt']]))
     rec = dict(b=0, k=case.get('step', 0), H=case['H'], dt=case['dt'], state=case['state'], new=[float(x) for x in o['new'][0]], new2=[float(x) for x in o['new2'][0]],
                es=[float(x) for x in o['es'][0]], phi=[float(x) for x in o['phi'][0]],
-               **{q: float(o[q][0]) for q in ('s', 'Yo', 'Y_ub', 's_new', 'Y_new', 'W_old', 'W_new', 'dP', 'Pn', 'phi_star', 'iso', 'trN', 'NN', 'mu')})
+               **{q: float(o[q][0]) for q in ('s', 'Yo', 'Y_ub', 'r_near', 'dY_new', 's_new', 'Y_new', 'W_old', 'W_new', 'dP', 'Pn', 'phi_star', 'iso', 'trN', 'NN', 'mu')})
     return concl(cfg, rec, case.get('step', 0)), rec
 
 
